@@ -28,7 +28,7 @@ RULE = ("per run a history of 3-9 operations over up to 3 BEC2 files sharing a p
 REAL = ["bec2format.bec2file", "bec2format.bf3file", "bec2format.crypto", "register_crypto_plugin", "pyaes", "ecdsa"]
 STUBS = ["medium: SimFS", "RNG: SimRng (never repeats, logs call-site class)", "key-generation observer",
          "device model: RefAES/RefCRC/RefP256"]
-PROBES = ["runs-with-assertions-disabled", "public-only-entry-while-reading", "peer-returns-short-key-payload", "block-with-unknown-tag", "writer-keystore", "same-object-two-writer-threads", "fork-child-and-parent-draw-keys", "bf3-object-shared-between-files", "splice-insert-same-tag", "keyless-constructor", "repeated-write-same-object", "rewrite-with-opaque-block", "splice-different-keys",
+PROBES = ["unknown-block-with-empty-value", "two-threads-own-objects", "runs-with-assertions-disabled", "public-only-entry-while-reading", "peer-returns-short-key-payload", "block-with-unknown-tag", "writer-keystore", "same-object-two-writer-threads", "fork-child-and-parent-draw-keys", "bf3-object-shared-between-files", "splice-insert-same-tag", "keyless-constructor", "repeated-write-same-object", "rewrite-with-opaque-block", "splice-different-keys",
           "splice-equal-keys", "splice-rejected", "ecc-default-recipient-unwrapped", "three-blocks-unwrapped",
           "two-files-distinct-keys", "ephemeral-points-compared"]
 ASSUMPTIONS = ["'rejected' for a spliced header means: read with decryptors for both blocks raises"]
@@ -54,6 +54,22 @@ def gen(st, tier):
         return {"conc": True, "aes": rbytes(w, 16).hex(), "code": rbytes(w, 8).hex(), "ver": w.randrange(256),
                 "obj": G.bf3_spec(w, max_comps=1, p_enc=0.3, max_len=40, allow_many=False), "rng": w.getrandbits(32),
                 "preempt": pre, "choices": ch}
+    if w.random() < 0.06:
+        # two threads that share NOTHING: each writes its own package for its own ECC recipient
+        from sim import conc
+        r = st["schedule"]
+        # pre-emption points: lines of the registered plug-in (the layer that hands keys to the crypto libraries)
+        pre = [["shallow", r.randrange(2), r.random()] for _ in range(r.choice([1, 2, 3, 4]))]
+        if r.random() < 0.4:
+            pre.append(["frac", r.random()])
+        return {"conc": True, "separate": True,
+                "files": [{"blocks": [{"t": "ecc", "sel": w.randrange(4), "recip": prov.scalar_spec(w)},
+                                      {"t": "upd", "code": rbytes(w, 8).hex(), "ver": w.randrange(256)}],
+                           "key": G.session_key_spec(w, allow_default=False),
+                           "obj": G.bf3_spec(w, max_comps=1, p_enc=0.3, max_len=40, allow_many=False)}
+                          for _ in range(2)],
+                "rng": w.getrandbits(32), "preempt": pre, "choices": [r.randrange(1000) for _ in range(12)],
+                "first": r.randrange(2)}
     pool = _pool(w)
     objs = [G.bf3_spec(w, max_comps=2, p_enc=0.3, max_len=80) for _ in range(2)]
     ops = []
@@ -122,7 +138,75 @@ def _body_ok(binary, body_off, key, model):
     return G.compare_bf3(model, got)
 
 
+def _run_separate(case):
+    """two threads, each with its own objects (package, key, recipient, encryptors): every block of either file
+    must still wrap that file's key"""
+    from sim import conc
+    out = Outcome()
+    bf = env.bec2file
+    state = {}
+
+    def make_bodies(s):
+        fs = SimFS()
+        env.use_fs(fs)
+        env.install_rng(prov.SimRng(case["rng"]))
+        state["fs"] = fs
+        state["becs"] = []
+        bodies = []
+        for i, fsp in enumerate(case["files"]):
+            abs_, wenc, dec = prov.build_blocks(fsp["blocks"], env)
+            bec = bf.Bec2File(G.build_bf3(fsp["obj"], env), abs_, bytes.fromhex(fsp["key"]))
+            state["becs"].append(bec)
+
+            def fn(i=i, bec=bec, wenc=wenc):
+                h = fs.open("s%d.bec2" % i, "w")
+                try:
+                    bec.write_file(h, wenc)
+                finally:
+                    h.close()
+                return True
+            bodies.append(fn)
+        return bodies
+    try:
+        dry, cc, pre = conc.run_conc(make_bodies, case["preempt"], case["choices"], first=case.get("first", 0),
+                                     shallow=conc.plugin_files())
+        fs = state["fs"]
+        npre = sum(1 for d in cc.decisions if d[3] == "preempt")
+        out.fired["preempt"] += npre
+        out.nontrivial = npre > 0
+        out.probes["two-threads-own-objects"] += 1
+        out.ev("separate", tuple(cc.decisions), cc.aborted)
+        narrow = dict(case, preempt=[["abs", p] if isinstance(p, int) else list(p) for p in pre])
+        if any(t.exc is not None for t in dry.threads):
+            out.ev("sequential-raises")
+            return out
+        if cc.aborted or any(t.exc is not None for t in cc.threads):
+            out.fail("C07.concurrent", "separate-raises", "two threads writing their own packages: %s %s" % (
+                cc.aborted, [t.exc for t in cc.threads]), narrow)
+            return out
+        for i, fsp in enumerate(case["files"]):
+            want = bytes.fromhex(fsp["key"])
+            head, binary = files.binary_of(fs.files["s%d.bec2" % i])
+            hdr, body_off = prov.parse_header(binary)
+            for (tag, val), sp in zip(hdr, fsp["blocks"]):
+                try:
+                    k = prov.device_unwrap(sp, tag, val)
+                except ValueError as e:
+                    out.fail("C07.device", "separate-unwrap-" + sp["t"], "file %d: %s (schedule %s)" % (i, e, cc.decisions),
+                             narrow)
+                    continue
+                if k != want:
+                    out.fail("C07.same-key", "separate-" + sp["t"], "file %d written while another thread wrote its own "
+                             "package: the %s block wraps %s, the file's session key is %s (schedule %s)"
+                             % (i, sp["t"], k.hex(), want.hex(), cc.decisions), narrow)
+    finally:
+        env.restore_registry()
+    return out
+
+
 def _run_conc(case):
+    if case.get("separate"):
+        return _run_separate(case)
     from sim import conc
     out = Outcome()
     bf = env.bec2file
@@ -455,7 +539,11 @@ def run(case):
                 foreign = (nops + b) % 3 == 0
                 if foreign:
                     # a block of a kind this library version does not know (another tool added it)
-                    tagA, valA = [0x21, 0x7F, 0x04][(nops + b) % 3 if False else b % 3], valA[: 1 + len(valA) % 40]
+                    # (also: an empty value, e.g. a vendor marker; tag 00 with a value is not the terminator)
+                    tagA = [0x21, 0x7F, 0x04, 0x00][(b + nops // 3) % 4]
+                    valA = valA[: (0 if nops % 4 == 0 and tagA else 1 + len(valA) % 40)]
+                    if not valA:
+                        out.probes["unknown-block-with-empty-value"] += 1
                 hdr2.insert(0 if where == "front" else len(hdr2), (tagA, valA))
                 header = b"BEC2\0" + b"".join(bytes([t, len(v)]) + v for t, v in hdr2) + b"\0\0"
                 body = B["obj"].bf3file.to_binary(len(header), B["key"])
